@@ -130,12 +130,15 @@ pub(crate) enum ListType {
 pub(crate) enum ListBound {
     Numeric(usize),
     Infinite,
+    /// no index is valid: the list is known to be empty
+    Empty,
 }
 
 impl ListBound {
     pub(crate) fn val_fits_between(end: &Self, value: &Value) -> Result<bool> {
         match end {
             Self::Infinite => Ok(true),
+            Self::Empty => bail!("operation will be out of bounds; this list is known to be empty"),
             Self::Numeric(last_valid_index) => {
                 let ConstexprEvaluation::Owned(value) = value.try_constexpr_eval()? else {
                     bail!("Cannot guarantee that this operation will not fail, as it is a non-constexpr index.\nTo allow fallable lookups, explicitly give a spread type to the list:\n```\n\tvar: [int...] = [1, 2, 3]\n```")
@@ -162,6 +165,7 @@ impl Display for ListBound {
         match self {
             Self::Numeric(index) => write!(f, "{index}"),
             Self::Infinite => write!(f, "∞"),
+            Self::Empty => write!(f, "none"),
         }
     }
 }
@@ -174,7 +178,10 @@ impl ListType {
     pub fn upper_bound(&self) -> ListBound {
         match self {
             Self::Open { .. } => ListBound::Infinite,
-            Self::Mixed(types) => ListBound::Numeric(types.len() - 1),
+            Self::Mixed(types) => match types.len().checked_sub(1) {
+                Some(last_valid_index) => ListBound::Numeric(last_valid_index),
+                None => ListBound::Empty,
+            },
         }
     }
 
